@@ -30,6 +30,8 @@ type c07iPlan struct {
 	Query      string `json:"query"`
 	Fields     uint64 `json:"fields"` // seed of the field-structured lines
 	NLines     int    `json:"nlines"`
+	WithNth    string `json:"with_nth"` // what is displayed and searched; what is printed stays the record
+	Ansi       int    `json:"ansi"`     // every Ansi-th record carries SGR sequences and --ansi is given
 	End        string `json:"end"` // enter | esc | alt-e (expect key) | f2 (expect key) | alt-p (print-query) | alt-o (accept-or-print-query) | alt-n (accept-non-empty)
 }
 
@@ -147,6 +149,12 @@ func genC07iPlan(r *zsim.Rng) *c07iPlan {
 	}
 	p.Select1 = r.Chance(1, 6)
 	p.Exit0 = r.Chance(1, 6)
+	if r.Chance(1, 4) {
+		p.WithNth = []string{"1", "2..", "-1", "1..", "..2"}[r.Intn(5)]
+	}
+	if r.Chance(1, 6) {
+		p.Ansi = r.Range(1, 3)
+	}
 	if r.Chance(1, 3) {
 		p.Query = string(lineAlphabet[r.Intn(len(lineAlphabet))])
 		if r.Chance(1, 3) {
@@ -206,6 +214,12 @@ func runC07i(c *runCtx) {
 	if plan.AcceptNth != "" {
 		add("--accept-nth", plan.AcceptNth)
 	}
+	if plan.WithNth != "" {
+		add("--with-nth", plan.WithNth)
+	}
+	if plan.Ansi > 0 {
+		add("--ansi")
+	}
 	if plan.Select1 {
 		add("--select-1")
 	}
@@ -216,7 +230,33 @@ func runC07i(c *runCtx) {
 		add("--query", plan.Query)
 	}
 	lines := fieldLines(plan.Fields, clampInt(plan.NLines, 0, 500), plan.Delim)
-	sp.Lines = lineSpec{N: 0, Extra: lines}
+	fed := lines // what goes into stdin
+	if plan.Ansi > 0 {
+		// with --ansi the sequences are removed from the record: what is printed is `lines`, what is fed is decorated
+		fed = append([]string(nil), lines...)
+		for i := range fed {
+			if i%plan.Ansi == 0 {
+				fed[i] = decorate(fed[i])
+			}
+		}
+	}
+	sp.Lines = lineSpec{N: 0, Extra: fed}
+	// display text = what the list shows and the query is matched against
+	display := func(r *sysRun) []frozenItem {
+		items := make([]frozenItem, len(lines))
+		var tr func([]Token, int32) string
+		if r.opts != nil && r.opts.WithNth != nil {
+			tr = r.opts.WithNth(r.opts.Delimiter)
+		}
+		for i, l := range lines {
+			d := l
+			if tr != nil {
+				d = strings.TrimRight(tr(Tokenize(l, r.opts.Delimiter), int32(i)), " \t\n\r\v\f")
+			}
+			items[i] = frozenItem{Index: int32(i), Text: d}
+		}
+		return items
+	}
 	r := newSysRun(c, sp)
 	m := &uiModel{}
 	if sp.Multi < 0 {
@@ -227,10 +267,7 @@ func runC07i(c *runCtx) {
 		if st := r.state(); st != nil && !busy && !st.Reading && r.settleN > 0 {
 			// drive the cursor/selection model (same as C09's) for the delivered keys
 			if m.list == nil {
-				items := make([]frozenItem, len(lines))
-				for i, l := range lines {
-					items[i] = frozenItem{Index: int32(i), Text: l}
-				}
+				items := display(r)
 				mc := sp.Match
 				mc.forcePos = true
 				m.list = indicesOf(freshFilter(items, plan.Query, mc))
@@ -276,10 +313,7 @@ func runC07i(c *runCtx) {
 		return
 	}
 	// ---- model of what must have been printed
-	items := make([]frozenItem, len(lines))
-	for i, l := range lines {
-		items[i] = frozenItem{Index: int32(i), Text: l}
-	}
+	items := display(r)
 	mc := sp.Match
 	mc.forcePos = true
 	results := indicesOf(freshFilter(items, plan.Query, mc))
